@@ -195,7 +195,12 @@ func (c *Cluster) quiescent() bool {
 	return true
 }
 
-func (c *Cluster) genByz(g *genState) *Step { return nil }
+func (c *Cluster) genByz(g *genState) *Step {
+	if c.byzGen != nil {
+		return c.byzGen(g)
+	}
+	return nil
+}
 
 func (c *Cluster) opByz(s *Step) {
 	if c.byzHandler != nil {
